@@ -7,6 +7,8 @@
 -/
 import Influx.Lemmas.StoreDelC17
 import Influx.Lemmas.EpochInv
+import Influx.Lemmas.StoreDelHolds
+import Influx.Lemmas.EpochHolds
 
 namespace Influx.Props.C17
 open Influx.Model.StoreDel Influx.Model.DelPred
@@ -98,7 +100,7 @@ open Influx.Model.Epoch in
 theorem C17_epoch_nonblocking (t : Tracker) (id : Int) (times : List Int) (g : Nat) (wait : List Int)
     (h : (step t (.startWrite id times)).2 = .started g wait) (x : Int) :
     x ∈ wait ↔ ∃ d ∈ t.deletes, d.id = x ∧ guardMatches d times = true := by
-  simp only [step] at h
+  simp only [Influx.Model.Epoch.step] at h
   split at h
   · cases h
   · simp only [EAns.started.injEq] at h
@@ -113,13 +115,37 @@ open Influx.Model.Epoch in
 /-- a delete installed while `n` writes are in flight waits for exactly those -/
 theorem C17_epoch_delete_waits (t : Tracker) (h : Influx.Model.Epoch.Inv t) (id lo hi : Int) (g : Nat) (p : Int)
     (hs : (step t (.waitDelete id lo hi)).2 = .installed g p) : p = t.inflight.length := by
-  simp only [step] at hs
+  simp only [Influx.Model.Epoch.step] at hs
   split at hs
   · cases hs
   · simp only [EAns.installed.injEq] at hs
     rw [← hs.2, h.writes]
 
+/-! ### the run-time oracle accepts the model's trace -/
+
+/-- **C17_holdsOn (partial)** — clauses 1 and 2 as the statement checker `Spec.C17.holdsOn` reads
+    them, on the model's own trace: for every case `open n; ops` without snapshots (all values
+    still in the cache, where "listed ⇔ data" holds), whose written series and predicates lie in
+    the C16 domain and whose ranges have `lo ≤ hi`, every `read`, `ls` and `MeasurementNames`
+    answer of the model is what the history demands.  (With snapshots the points clause still
+    holds — `C17_points_exact` — and the listing clause fails — `C17_full_fails`.) -/
+theorem C17_holdsOn_partial (n : Nat) (ops : List Op) (hok : ops.all opOK = true) :
+    Influx.Spec.C17.holdsOn (runT none (.open_ n :: ops)) = true := by
+  obtain ⟨hrel, hids⟩ := rel_init n
+  simp only [runT, ansOf, Influx.Model.StoreDel.stepOp, Influx.Spec.C17.holdsOn]
+  exact judgeCase_runT n ops hok _ [] hrel hids
+
+/-- **C17_epoch_holdsOn** (full) — clause 3 as the statement checker `Spec.C17.EpochOK` reads it,
+    on the tracker model's own trace, for every schedule of StartWrite / EndWrite / WaitDelete /
+    Done: a write waits for exactly the running deletes whose range contains one of its points,
+    a delete for exactly the writes that entered before it and have not left. -/
+theorem C17_epoch_holdsOn (ops : List Influx.Model.Epoch.EOp) :
+    Influx.Spec.C17.EpochOK (Influx.Model.Epoch.run {} ops) = true :=
+  Influx.Model.Epoch.judgeAll_run ops {} {} Influx.Model.Epoch.inv_init ⟨rfl, rfl, rfl⟩
+
 -- non-vacuity
+example : [Op.write 1 [109] [([116], [97])] [(1, 1)], .del 0 5 (some (.rule [116] false [97])) true,
+    .read 1, .ls 1, .mn .nil_ none].all opOK = true := by decide
 example : ShardWF ⟨1, [], []⟩ := ⟨by simp, by simp⟩
 example : Influx.Model.Epoch.Inv {} := Influx.Model.Epoch.inv_init
 
